@@ -3,7 +3,8 @@
 check that every test listed as stable_pass in /root/.vp/BASELINE.json passes."""
 import json, subprocess, sys, os, tempfile
 repo = '/repo'
-r = subprocess.run(['cmake', '--build', os.path.join(repo, '_build')], stdout=subprocess.PIPE, stderr=subprocess.STDOUT, text=True)
+if '--repo' in sys.argv: repo = sys.argv[sys.argv.index('--repo') + 1]
+r = subprocess.run(['true' if '--no-build' in sys.argv else 'cmake', '--build', os.path.join(repo, '_build')], stdout=subprocess.PIPE, stderr=subprocess.STDOUT, text=True)
 if r.returncode != 0:
     print(r.stdout[-3000:]); print('BASELINE: build failed'); sys.exit(2)
 out = tempfile.mktemp(suffix='.json')
